@@ -23,6 +23,7 @@ let () =
            st := init_state (parse_env f) (unhex (get f "caller")) (unhex (get f "defdir"))
          | "dumpfs" -> print_fs !idx !st
          | "counters" -> print_counters !idx !st
+         | "clean" -> incr idx; st := Cmd_clean.run_clean !idx !st f
          | c when Hashtbl.mem extra_cmds c ->
            incr idx; (Hashtbl.find extra_cmds c) !idx f
          | _ ->
